@@ -9,12 +9,21 @@ use std::rc::Rc;
 #[derive(Clone)]
 pub struct SharedBuf {
     pub data: Rc<RefCell<Vec<u8>>>,
+    /// what a crash would leave behind: the image as of the last `flush()` of
+    /// the medium (writes since then sit in a volatile cache, as with a
+    /// `BufWriter` or an OS page cache)
+    durable: Rc<RefCell<Vec<u8>>>,
     pos: u64,
 }
 
 impl SharedBuf {
     pub fn new(bytes: Vec<u8>) -> SharedBuf {
-        SharedBuf { data: Rc::new(RefCell::new(bytes)), pos: 0 }
+        SharedBuf { durable: Rc::new(RefCell::new(bytes.clone())), data: Rc::new(RefCell::new(bytes)), pos: 0 }
+    }
+    /// The bytes that are safely on the medium: everything written before the
+    /// medium's own `flush()` was last called.
+    pub fn durable_bytes(&self) -> Vec<u8> {
+        self.durable.borrow().clone()
     }
     pub fn bytes(&self) -> Vec<u8> {
         self.data.borrow().clone()
@@ -56,6 +65,8 @@ impl Write for SharedBuf {
         Ok(buf.len())
     }
     fn flush(&mut self) -> io::Result<()> {
+        let image = self.data.borrow().clone();
+        *self.durable.borrow_mut() = image;
         Ok(())
     }
 }
